@@ -90,3 +90,21 @@ theorem C12_order_and_isolation {Val : Type} (g : List Sched.TaskEff) (sem : ℕ
 
 /-- non-vacuity: five labelled items in partitions of sizes 2, 0, 1, 2 with unsorted labels -/
 example : prepare [["a", "b"], [], ["c"], ["d", "e"]] [1, 0, 1, 1, 0] 2 = [["b", "e"], ["a", "c", "d"]] := by decide
+
+/-- **every partition's contribution enters each M-step exactly once**, whatever the shape of the
+reduction (pairwise as in `IVectorMachine.fit`, wider, uneven): the statement of
+`C04_blocks_exactly_once` for the recorded bag graphs, whose E-step tasks are the `workers` -/
+theorem C12_exactly_once {M : Type} [AddCommMonoid M] (g : List Sched.TaskEff) (final : ℕ) (workers : List ℕ)
+    (result : ℕ → M) (ht : Sched.topoOrdered g = true) (he : Sched.exactlyOnce g final workers = true) (fuel : ℕ)
+    (hf : g.length < fuel) :
+    dagVal (Sched.depsOf g) (fun x => workers.contains x) result fuel final = ∑ w ∈ workers.toFinset, result w :=
+  exactlyOnce_sound g final workers result ht he fuel hf
+
+/-- a worker without a path to the M-step is absent from what the M-step receives: replacing its
+statistics by anything else changes nothing (how a dropped partition shows) -/
+theorem C12_dropped_partition_ignored {M : Type} [AddCommMonoid M] (g : List Sched.TaskEff) (final : ℕ) (workers : List ℕ)
+    (result result' : ℕ → M) (w0 : ℕ) (h0 : Sched.pathCount g workers w0 final = 0)
+    (hsame : ∀ w, w ≠ w0 → result w = result' w) :
+    dagVal (Sched.depsOf g) (fun x => workers.contains x) result (g.length + 1) final
+      = dagVal (Sched.depsOf g) (fun x => workers.contains x) result' (g.length + 1) final :=
+  dagVal_dropped_worker_ignored _ _ result result' workers.toFinset (by intro t; simp) _ final w0 h0 hsame
